@@ -343,3 +343,15 @@ def bind_role(body, role, origin_rx=None, full=False, type_rx=None, used_as=None
             if hasattr(body, attr):
                 delattr(body, attr)
     return l
+
+
+
+def first_in_flow(body, blocks):
+    """The block of `blocks` that comes first in control flow: not reachable from any of the others (block NUMBERS say nothing about order once a helper has been
+    inlined at the end of the body).  Falls back to the smallest number when the order is not total."""
+    blocks = sorted(set(blocks))
+    if len(blocks) <= 1:
+        return blocks[0] if blocks else None
+    firsts = [b for b in blocks if not any(o != b and b in body.reach([o]) and o not in body.reach([b]) for o in blocks)]
+    cands = [b for b in firsts if all(o == b or o in body.reach([b]) for o in blocks)]
+    return cands[0] if cands else (firsts[0] if firsts else blocks[0])
